@@ -160,15 +160,20 @@ def operations(ref, L, S):
         ops[name] = (f, mut)
 
     def mutate_dict(d):
+        # ends in a state that differs from the original one: a non-empty dictionary is emptied, an empty one gets a key
         if isinstance(d, dict):
+            had = bool(d)
             for k in list(d):
                 d[k] = "MUTATED"
             d["injected"] = "x"
-            d.pop(next(iter(d)), None)
-            d.clear()
+            if had:
+                d.pop(next(iter(d)), None)
+                d.clear()
 
     for tk in ("plain", "forced0", "forced1", "fields-born", "path-born", "query-born", "untyped"):
         reg(f"fields({tk})-mutate", lambda c, tk=tk: mutate_dict(c["T"][tk].fields) if tk in c["T"] else None, True)
+    reg("fields(empty)-mutate", lambda c: mutate_dict(c["T"]["empty"].fields), True)
+    reg("fields(parent-of-untyped)-mutate", lambda c: mutate_dict(c["T"]["untyped"].parent.fields), True)
     reg("fields(plain)-set-one", lambda c: c["T"]["plain"].fields.__setitem__(keys[-1], "zz"), True)
     reg("fields(plain).update", lambda c: c["T"]["plain"].fields.update({keys[0]: "other", "new": "1"}), True)
     reg("same-string-other-object-fields-mutate", lambda c: mutate_dict(Sid(L).fields), True)
